@@ -885,6 +885,8 @@ def _first_call_in_value(val, helpers, cls, caller):
         elif isinstance(e, ast.Call) and _simple_expr(e.func) and not e.keywords and not any(isinstance(a, ast.Starred) for a in e.args):
             kids = [(e, ("args", i), x) for i, x in enumerate(e.args)]
         elif isinstance(e, ast.Subscript):
+            if is_helper(e.value) and isinstance(e.slice, ast.Constant) and e is val:
+                return None  # `return h(x)[k]` / `t = h(x)[k]`: the projection of the helper is taken instead (see _inline_in_block)
             kids = [(e, "value", e.value), (e, "slice", e.slice)]
         else:
             return None
@@ -904,16 +906,92 @@ def _first_call_in_value(val, helpers, cls, caller):
 
 
 _GENS: dict = {}   # new generator helpers of the scope being inlined (set by inline_helpers)
+_CMS: dict = {}    # new @contextmanager generator helpers of the scope being inlined
+
+
+def _expand_generator_cm(st, helpers, caller, cls):
+    """`with h(args) as v: BODY` over a new `@contextmanager` generator `PRE; yield X; POST` or `PRE; try: yield X finally: F; POST`:
+    `PRE; v = X; BODY; POST` resp. `PRE; v = X; try: BODY finally: F; POST` (an exception of BODY is raised at the `yield`: a bare
+    yield lets it pass and skips POST, a `finally` around the yield runs)."""
+    if len(st.items) != 1 or isinstance(st, ast.AsyncWith):
+        return None
+    call = st.items[0].context_expr
+    asv = st.items[0].optional_vars
+    if not isinstance(call, ast.Call) or call.keywords or (asv is not None and not isinstance(asv, ast.Name)):
+        return None
+    h = _CMS.get(_callee_name(call, cls)[0])
+    if h is None or h is caller:
+        return None
+    body = h.body
+    if body and isinstance(body[0], ast.Expr) and isinstance(body[0].value, ast.Constant) and isinstance(body[0].value.value, str):
+        body = body[1:]
+    yields = [x for x in ast.walk(h) if isinstance(x, ast.Yield)]
+    if len(yields) != 1 or any(isinstance(x, (ast.Return, ast.Await)) for x in ast.walk(h)):
+        return None
+    y = yields[0]
+    k = None
+    shape = None
+    for i, b in enumerate(body):
+        if isinstance(b, ast.Expr) and b.value is y:
+            k, shape = i, "bare"
+        elif isinstance(b, ast.Try) and not b.handlers and not b.orelse and any(isinstance(t, ast.Expr) and t.value is y for t in b.body):
+            k, shape = i, "finally"
+    if k is None:
+        return None
+    if any(isinstance(x, ast.Yield) for b in body[:k] + body[k + 1:] for x in ast.walk(b)):
+        return None
+    marker = ast.Expr(ast.Constant("__with_body__"))
+    give = []
+    if asv is not None:
+        give = [ast.Assign([ast.Name(asv.id, ast.Store())], copy.deepcopy(y.value) if y.value is not None else ast.Constant(None), lineno=st.lineno)]
+    if shape == "bare":
+        mid = give + [marker]
+    else:
+        j = next(i for i, t in enumerate(body[k].body) if isinstance(t, ast.Expr) and t.value is y)
+        mid = [ast.Try(body=copy.deepcopy(body[k].body[:j]) + give + [marker] + copy.deepcopy(body[k].body[j + 1:]), handlers=[], orelse=[],
+                       finalbody=copy.deepcopy(body[k].finalbody))]
+    pseudo = copy.deepcopy(h)
+    pseudo.decorator_list = [d for d in pseudo.decorator_list if ast.unparse(d) == "staticmethod"]
+    doc = pseudo.body[:len(pseudo.body) - len(body)]
+    pseudo.body = doc + copy.deepcopy(body[:k]) + mid + copy.deepcopy(body[k + 1:])
+    for x in ast.walk(pseudo):
+        if isinstance(x, (ast.stmt, ast.expr)) and not hasattr(x, "lineno"):
+            x.lineno = st.lineno
+            x.col_offset = 0
+    ast.fix_missing_locations(pseudo)
+    exp = _expand(pseudo, call, caller, cls, {asv.id} if asv is not None else set(), "expr")
+    if exp is None:
+        return None
+    new, _ = exp
+    placed = False
+
+    def place(block):
+        nonlocal placed
+        for i, s_ in enumerate(block):
+            if isinstance(s_, ast.Expr) and isinstance(s_.value, ast.Constant) and s_.value.value == "__with_body__":
+                block[i:i + 1] = st.body
+                placed = True
+                return
+            for fld in ("body", "orelse", "finalbody"):
+                sub = getattr(s_, fld, None)
+                if isinstance(sub, list) and sub and isinstance(sub[0], ast.stmt) and not placed:
+                    place(sub)
+    place(new)
+    return new if placed else None
 
 
 def _fuse_generator_loop(st, helpers, caller, cls):
-    """`for T in h(args): BODY` where h is a plain generator of the shape `PRELUDE; for x in IT: S...; yield E` (one yield, the last
-    statement of its only loop, nothing behind the loop, no return / try / with around it): the generator runs in lock step with
-    the consuming loop, so the statements are `PRELUDE; for x in IT: S...; T = E; BODY` (a `break` / `continue` of BODY acts on
-    the fused loop as it did on the consumer; nothing of the generator runs after its loop)."""
+    """`for T in h(args): BODY` where h is a plain generator of the shape `PRELUDE; for x in IT: S...` in which every way through the
+    loop body ends in exactly one `yield E` (the last statement of the body, or of every arm of its final `if` chain), nothing stands
+    behind the loop and there is no return / try / with: the generator runs in lock step with the consuming loop, so the statements are
+    `PRELUDE; for x in IT: S... with T = E at each yield; BODY` (a `break` / `continue` of BODY acts on the fused loop as it did on the
+    consumer; nothing of the generator runs after its loop).  `async for` over an `async def` generator likewise (its awaits now stand in
+    the consuming coroutine, which awaited them through the iteration anyway)."""
     name = _callee_name(st.iter, cls)[0]
     h = _GENS.get(name)
-    if h is None or h is caller or isinstance(h, ast.AsyncFunctionDef) or st.iter.keywords:
+    if h is None or h is caller or st.iter.keywords:
+        return None
+    if isinstance(h, ast.AsyncFunctionDef) != isinstance(st, ast.AsyncFor):
         return None
     body = h.body
     if body and isinstance(body[0], ast.Expr) and isinstance(body[0].value, ast.Constant) and isinstance(body[0].value.value, str):
@@ -922,34 +1000,64 @@ def _fuse_generator_loop(st, helpers, caller, cls):
         return None
     loop = body[-1]
     yields = [x for x in ast.walk(h) if isinstance(x, (ast.Yield, ast.YieldFrom))]
-    if len(yields) != 1 or not isinstance(yields[0], ast.Yield) or yields[0].value is None:
+    if not yields or any(isinstance(y, ast.YieldFrom) or y.value is None for y in yields):
         return None
-    last = loop.body[-1]
-    if not (isinstance(last, ast.Expr) and last.value is yields[0]):
+    tails = []
+
+    def tail_yields(block) -> bool:
+        if not block:
+            return False
+        last = block[-1]
+        if isinstance(last, ast.Expr) and isinstance(last.value, ast.Yield):
+            tails.append(last)
+            return True
+        if isinstance(last, ast.If) and last.orelse:
+            return tail_yields(last.body) and tail_yields(last.orelse)
+        return False
+    if not tail_yields(loop.body) or len(tails) != len(yields):
         return None
-    if any(isinstance(x, (ast.Return, ast.Try, ast.With, ast.AsyncWith, ast.Await)) for x in ast.walk(h)):
+    if any(isinstance(x, (ast.Return, ast.Try, ast.With, ast.AsyncWith)) for x in ast.walk(h)):
+        return None
+    if not isinstance(h, ast.AsyncFunctionDef) and any(isinstance(x, ast.Await) for x in ast.walk(h)):
         return None
     if any(isinstance(x, (ast.Break, ast.Continue)) for s_ in loop.body for x in ast.walk(s_)):
         return None
     tnames = {n.id for n in ast.walk(st.target) if isinstance(n, ast.Name)}
     if not all(isinstance(n, (ast.Name, ast.Tuple, ast.Store)) for n in ast.walk(st.target)):
         return None
-    E = yields[0].value
     marker = ast.Expr(ast.Constant("__fused_body__"))
-    give = []
-    if isinstance(st.target, ast.Tuple) and isinstance(E, ast.Tuple) and len(E.elts) == len(st.target.elts) and all(isinstance(t, ast.Name) for t in st.target.elts):
-        tl = [t.id for t in st.target.elts]
-        safe = all(not any(isinstance(n, ast.Name) and n.id in tl[:j] and not (isinstance(E.elts[tl.index(n.id)], ast.Name) and E.elts[tl.index(n.id)].id == n.id)
-                           for n in ast.walk(v)) for j, v in enumerate(E.elts))
-        if safe:
-            for t, v in zip(tl, E.elts):
-                give.append(ast.Assign([ast.Name(t, ast.Store())], copy.deepcopy(v), lineno=st.lineno))
-    if not give:
-        give = [ast.Assign([copy.deepcopy(st.target)], copy.deepcopy(E), lineno=st.lineno)]
+
+    def give_for(E):
+        give = []
+        if isinstance(st.target, ast.Tuple) and isinstance(E, ast.Tuple) and len(E.elts) == len(st.target.elts) and all(isinstance(t, ast.Name) for t in st.target.elts):
+            tl = [t.id for t in st.target.elts]
+            safe = all(not any(isinstance(n, ast.Name) and n.id in tl[:j] and not (isinstance(E.elts[tl.index(n.id)], ast.Name) and E.elts[tl.index(n.id)].id == n.id)
+                               for n in ast.walk(v)) for j, v in enumerate(E.elts))
+            if safe:
+                for t, v in zip(tl, E.elts):
+                    give.append(ast.Assign([ast.Name(t, ast.Store())], copy.deepcopy(v), lineno=st.lineno))
+        if not give:
+            give = [ast.Assign([copy.deepcopy(st.target)], copy.deepcopy(E), lineno=st.lineno)]
+        return give
     pseudo = copy.deepcopy(h)
-    pbody = pseudo.body
-    ploop = pbody[-1]
-    ploop.body = ploop.body[:-1] + give + [marker]
+    if isinstance(pseudo, ast.AsyncFunctionDef):
+        # expanded like a plain helper (its awaits are kept as they are); the caller is a coroutine
+        p2 = ast.FunctionDef(name=pseudo.name, args=pseudo.args, body=pseudo.body, decorator_list=pseudo.decorator_list, returns=None, type_comment=None)
+        if hasattr(ast.FunctionDef, "type_params") or True:
+            p2.type_params = []
+        ast.copy_location(p2, pseudo)
+        pseudo = p2
+    ploop = pseudo.body[-1]
+
+    def swap(block):
+        last = block[-1]
+        if isinstance(last, ast.Expr) and isinstance(last.value, ast.Yield):
+            block[-1:] = give_for(last.value.value)
+            return
+        swap(last.body)
+        swap(last.orelse)
+    swap(ploop.body)
+    ploop.body.append(marker)
     for x in ast.walk(pseudo):
         if isinstance(x, ast.stmt) and not hasattr(x, "lineno"):
             x.lineno = st.lineno
@@ -984,6 +1092,16 @@ def _inline_in_block(stmts, helpers, caller, cls, rep: Report, failed: set):
             nb, ch = _inline_in_block(h.body, helpers, caller, cls, rep, failed)
             h.body = nb
             changed |= ch
+        if isinstance(st, ast.With) and _CMS:
+            exp_ = _expand_generator_cm(st, helpers, caller, cls)
+            if exp_ is not None:
+                for s_ in exp_:
+                    ast.fix_missing_locations(s_)
+                out.extend(exp_)
+                rep.inlined.append((f"{cls + '.' if cls else ''}{_callee_name(st.items[0].context_expr, cls)[0]} (context manager)",
+                                    f"{cls + '.' if cls else ''}{caller.name}", getattr(st, "lineno", 0)))
+                changed = True
+                continue
         # `x = list(gen(args))` / `return list(gen(args))` over a new generator helper: the accumulating loop it abbreviates
         if isinstance(st, (ast.Return, ast.Assign)) and isinstance(st.value, ast.Call) and isinstance(st.value.func, ast.Name) and st.value.func.id == "list" \
                 and len(st.value.args) == 1 and not st.value.keywords and isinstance(st.value.args[0], ast.Call) and _callee_name(st.value.args[0], cls)[0] in _GENS \
@@ -1009,7 +1127,7 @@ def _inline_in_block(stmts, helpers, caller, cls, rep: Report, failed: set):
                     changed = True
                     continue
         # `for T in gen(args): BODY` over a new generator helper `PRELUDE; for x in IT: S; yield E`: the two loops fused
-        if isinstance(st, ast.For) and isinstance(st.iter, ast.Call):
+        if isinstance(st, (ast.For, ast.AsyncFor)) and isinstance(st.iter, ast.Call):
             fused = _fuse_generator_loop(st, helpers, caller, cls)
             if fused is not None:
                 for s_ in fused:
@@ -1341,14 +1459,26 @@ def inline_helpers(modules, known, rep: Report):
                             helpers["mod:" + n.name] = n
                 _GENS.clear()
                 for name, fn in present.items():
-                    if name in kf or name.startswith("__") or name in helpers or not isinstance(fn, ast.FunctionDef):
+                    if name in kf or name.startswith("__") or name in helpers:
                         continue
                     if any(ast.unparse(d) not in ("staticmethod",) for d in fn.decorator_list):
                         continue
                     if any(isinstance(x, (ast.Yield, ast.YieldFrom)) for x in ast.walk(fn)) and not _calls_to(fn, name, sc) \
                             and not any(isinstance(x, FUNC + (ast.Lambda, ast.Global, ast.Nonlocal, ast.ClassDef)) and x is not fn for x in ast.walk(fn)):
                         _GENS[name] = fn
-                if not helpers and not _GENS:
+                _CMS.clear()
+                for name, fn in present.items():
+                    if name in kf or name.startswith("__") or not isinstance(fn, ast.FunctionDef):
+                        continue
+                    decos = [ast.unparse(d) for d in fn.decorator_list]
+                    if not decos or any(d not in ("staticmethod", "contextlib.contextmanager", "contextmanager") for d in decos) or \
+                            not any(d.endswith("contextmanager") for d in decos):
+                        continue
+                    if _calls_to(fn, name, sc) or any(isinstance(x, FUNC + (ast.Lambda, ast.Global, ast.Nonlocal, ast.ClassDef, ast.YieldFrom)) and x is not fn
+                                                     for x in ast.walk(fn)):
+                        continue
+                    _CMS[name] = fn
+                if not helpers and not _GENS and not _CMS:
                     break
                 failed = set()
                 any_change = False
@@ -1357,10 +1487,11 @@ def inline_helpers(modules, known, rep: Report):
                     nb, ch = _inline_in_block(fn.body, helpers, fn, sc, rep, failed)
                     fn.body = nb
                     any_change |= ch
-                for name, fn in list(_GENS.items()):
+                for name, fn in list(_GENS.items()) + list(_CMS.items()):
                     if sum(_calls_to(m.tree, name, sc) for m in modules.values()) == 0 and fn in body:
                         body.remove(fn)
                 _GENS.clear()
+                _CMS.clear()
                 for name, fn in helpers.items():
                     if name.startswith("mod:"):
                         left = sum(_calls_to(m.tree, name[4:], "") for m in modules.values())
